@@ -503,13 +503,20 @@ Proof.
     replace (2 * n - 0)%nat with (2 * n)%nat by lia. change (qnat 1) with 1. ring.
 Qed.
 
+(** in the terms of the model: the normalising constant of the F = 0 partition probabilities is C(n_sequenced, j) *)
+Theorem ways0_total_parts hn j : qsum (map ways0 (parts (2 * hn) j)) == binQ (2 * hn) j.
+Proof.
+  unfold parts. replace (2 * hn / 2)%nat with hn by (rewrite Nat.mul_comm, Nat.div_mul; lia).
+  rewrite ways0_total, binQ_binN. reflexivity.
+Qed.
+
 (** weighted number of m-subsets with i derived alleles *)
 Lemma ways0_hc_total n m j i :
   qsum (map (fun pt => ways0 pt * qnat (hc m i pt)) (part n (Z.of_nat j) 0)) == Tq n m (Z.of_nat j) (Z.of_nat i).
 Proof.
   rewrite (qsum_map_ext _ (fun pt => ways0 pt * (fun l => hcZ m (Z.of_nat i) l) pt)) by (intros; rewrite hcZ_nat; reflexivity).
   rewrite (part_sum_TS n (Z.of_nat j) (fun l => hcZ m (Z.of_nat i) l)) by (intros; apply hcZ_perm; assumption).
-  apply Sg_closed.
+  cbv beta. exact (Sg_closed n m (Z.of_nat j) (Z.of_nat i)).
 Qed.
 
 Lemma combine_map_self {A B} (h : A -> B) (l : list A) : combine l (map h l) = map (fun x => (x, h x)) l.
@@ -592,4 +599,5 @@ Proof.
 Qed.
 
 Print Assumptions proj_matrix_F0_consistent.
+Print Assumptions ways0_total_parts.
 Print Assumptions expected_row_is_projection_matrix_row_F0.
